@@ -114,6 +114,12 @@ func Read(r parser.ReadSeekSizer) (Info, error) {
 				res[key] += value
 			}
 		}
+
+		// Subtables must not overlap: if the length field is too small for
+		// the pairs just read, the next subtable starts after the pairs.
+		if end := p.Pos(); end > pos {
+			pos = end
+		}
 	}
 
 	return res, nil
